@@ -357,7 +357,7 @@ def run_shard(spec, ctx, acc):
                             continue
                         leaf[4] = raw
                         case = dict(base, bf=1, nodes=core.jdec(core.jenc(tmpl)), subset=None)
-                        o = check(case)
+                        o = core.checked(check, case)
                         o.classes = list(o.classes) + ["field-probe"]
                         core.handle(acc, o, case, known)
                     leaf[4] = 0
@@ -375,7 +375,7 @@ def run_shard(spec, ctx, acc):
                             continue
                         set_nonzero(fld)
                         case = dict(base, bf=bf, nodes=one, subset=sorted({nm} | set(G.count_names(t.defn))))
-                        o = check(case)
+                        o = core.checked(check, case)
                         o.classes = list(o.classes) + ["single-attribute"]
                         core.handle(acc, o, case, known)
             for bf in (1, 0):
@@ -441,7 +441,7 @@ def run_shard(spec, ctx, acc):
         leaf[4] = raw
         case = {"kind": "kw", "mode": t.mode, "clsid": t.clsid, "defname": t.defname, "bf": 1,
                 "nodes": template, "subset": None}
-        o = check(case)
+        o = core.checked(check, case)
         o.classes = ["sweep", "scaled"] if not o.classes[0].startswith("skipped") else o.classes
         o.dig = None
         o.nontrivial = raw != 0
